@@ -936,8 +936,18 @@ func (ft *FT) loopHead(li *loopInfo, st *State, guard Term, phiVals map[*ssa.Phi
 		hov[phi] = t
 		ft.assume("true", ft.typeInv(t, phi.Type(), hs))
 		if phi.Comment == "rangeindex" {
-			// implicit invariant of every range-over-slice loop: starts at -1 and only increments
+			// implicit invariant of every range-over-slice loop (go/ssa lowering: idx starts at -1, the header
+			// computes idx+1 and compares it with the length taken before the loop): -1 <= idx <= len-1
 			ft.assume("true", app("<=", "(- 1)", t))
+			for _, hi := range b.Instrs {
+				if cmp, ok := hi.(*ssa.BinOp); ok && cmp.Op == token.LSS {
+					if inc, ok := cmp.X.(*ssa.BinOp); ok && inc.Op == token.ADD && inc.X == ssa.Value(phi) {
+						if ts, ok := ft.env[cmp.Y]; ok && len(ts) == 1 {
+							ft.assume("true", app("<=", t, app("-", ts[0], "1")))
+						}
+					}
+				}
+			}
 		}
 	}
 	li.headState = hs.clone()
